@@ -156,3 +156,17 @@ claim("C19", "Lean 4 proof on a dual-number (forward-mode) model of val_clamp an
       NOTE_COMMON + " Modelled, not verified: autograd's own bookkeeping (the dual-number model is forward mode). The plain Lukasiewicz variant uses "
       "torch.clamp by design and is compared on values only. The transparent Or's extra term -sum(min(w,0)) is identically 0 with zero derivative for "
       "the positive weights generated (at w = 0 torch splits the subgradient; not exercised).", "DESIGN.md §6 C19")
+claim("C18", "Lean 4 proofs about the training loop for an ARBITRARY optimiser function + scripted-optimiser differential correspondence through the public optimizer= argument",
+      "Theorems C18_facts_preserved(_epochs) (facts untouched by any number of epochs; labels are not mutable state), C18_weights_nonneg / "
+      "C18_bias_nonneg / _epochs / _of_init / C18_negative_weights_free (after every epoch weights >= 0 unless negative weights were requested, "
+      "biases >= 0, whatever the optimiser did), C18_final_inferred(_facts) / C18_final_in_range (the bounds left behind are exactly reset_bounds();"
+      "infer() under the final parameters on the original facts), C18_contradiction_loss_* / C18_total_contradiction_loss_zero_iff(_no_cross) / "
+      "C18_supervised_loss_* / C18_total_supervised_loss_zero_iff (signs and zero conditions), plus the honest counterexamples "
+      "C18_contradiction_loss_alpha_gap / C18_uncertainty_loss_can_be_negative. Tied to /repo: Model.train(optimizer=<scripted torch optimiser>) "
+      "with seeded dyadic updates (negative, huge) replayed in the Lean training model (parameters after every epoch, loss components, final "
+      "bounds); default-Adam runs judged by the oracle (facts/labels, finite, projection postcondition, final = reset+infer, loss signs); "
+      "project_params compared directly incl. requested negative weights.",
+      NOTE_COMMON + " 'All parameters finite' has no counterpart in an ordered field: tested on the implementation only. Known finding D15 (alpha < 1: "
+      "same-region crossings give contradiction loss 0 and negative uncertainty loss) is listed and replayed. Which epochs take an optimiser step "
+      "(loss.grad_fn, convergence) is an input of the model. Inference with negative weights is not modelled. Observed outside the property: with "
+      "non-dyadic (Adam) parameters float rounding can make infer() creep by > 1e-7 per sweep indefinitely; the check caps sweeps on both sides.", "DESIGN.md §6 C18")
